@@ -44,7 +44,10 @@ MANIFEST = dict(
         "warm starts: setInitialSolution_inv (the rebuilt gradient and edge gradient satisfy the invariant for any start vector "
         "in the box), warmStart_in_box, warmStart_sum_zero and warmStart_untouched (the start vector of the repaired "
         "CSvmTrainer::optimize lies in the per-example box; with bias it sums to exactly 0 whenever clipping changed a "
-        "coefficient; a previous vector that fits the box is passed through unchanged), warm_start_inv. End to end: "
+        "coefficient or its positive and negative side differ by more than 1e-12 relative -- mustBalance, the repair of F-C07-9, "
+        "modelled in warmStartVector; a previous vector that fits the box and is balanced up to that tolerance is passed through "
+        "unchanged; warmStart_sum_small / warm_start_sum_tolerance: for EVERY previous vector the start vector sums to 0 up to "
+        "1e-12*(sumP+sumN)), warm_start_inv. End to end: "
         "solve_acc (AccuracyReached => all variables active and checkKKT < eps in the returned state), solve_optimal_box / "
         "csvm_nobias_optimal -- for a PSD kernel, whenever the model of the trainer without bias reports AccuracyReached the "
         "returned coefficients are eps*sum(U-L)-optimal among ALL feasible vectors, with no hypothesis about the run (built on "
@@ -254,10 +257,21 @@ def run(ctx):
             pre, cache = r.choice([(0, 0), (1, 0), (2, 2 * n), (2, 2 * n), (2, 2 * n + 1), (2, 3 * n + 1), (2, n * n + 5)])
             wm = r.choice([0, 0, 1, 2])
             a1 = [0.0] * n
-            if wm == 2:          # arbitrary previous coefficients; one of them lies outside its box, so the trainer clips and re-balances
-                Cmax = 2 * max(p1, p2)
-                a1 = [r.range(-8, 8) * Cmax / 8 for _ in range(n)]
-                a1[r.below(n)] = r.choice([-1.0, 1.0]) * 4 * Cmax
+            if wm == 2:          # arbitrary previous coefficients: outside the box (clipped and re-balanced), inside but unbalanced
+                Cmax = 2 * max(p1, p2)   # (re-balanced since the repair of F-C07-9), inside and balanced (passed through)
+                st = r.choice(["clip", "clip", "inbox", "balanced"])
+                if st == "clip":
+                    a1 = [r.range(-8, 8) * Cmax / 8 for _ in range(n)]
+                    a1[r.below(n)] = r.choice([-1.0, 1.0]) * 4 * Cmax
+                elif st == "inbox":
+                    a1 = [(1 if ys[i] > 0 else -1) * (p2 if ys[i] > 0 else p1) * ws[i] * r.choice([0.0, 0.25, 0.5, 1.0]) for i in range(n)]
+                else:
+                    m = min(p1, p2) * min([w_ for w_ in ws if w_ > 0] or [0.0]) / 4
+                    pos = [i for i in range(n) if ys[i] > 0 and ws[i] > 0]; neg = [i for i in range(n) if ys[i] <= 0 and ws[i] > 0]
+                    a1 = [0.0] * n
+                    if pos and neg: a1[pos[0]] = m; a1[neg[0]] = -m
+                a1 = [v + 0.0 for v in a1]      # no negative zeros among the given coefficients (their sign is not modelled)
+                ctx.hist("csvm3_start_vector", st)
             cfg = dict(kind="c", kern="lin", gamma=1.0, bias=r.below(2), shrink=r.below(2), pre=pre, cache=cache,
                        eps=r.choice([1e-3, 2.0 ** -10, 2.0 ** -4, 2.0 ** -16]), maxit=r.choice([4000, 4000, 4000, 3, 17]), maxsec=None,
                        warmmode=wm, warmit=r.choice([1, 3, 10, 100000]), warmfac=r.choice([1.0, 4.0, 0.25]), weighted=weighted, p1=p1, p2=p2,
